@@ -394,8 +394,10 @@ Theorem contact_tfm_image_is_pointwise : forall T D (N : Num T) (V : Data T D) s
                 = option_map (contact_pixel N V sc ns dt t0 fill v probe wss) (nd_get (length s) grid idx).
 Proof. intros T D N V. exact (contact_tfm_nd_pixel N V). Qed.
 
-(* tfm_for_view with ray times of shape (numelements, prod(grid.shape)): never raises, the pixel at
-   a multi-index reads column ravel(idx) of the two ray-time tables *)
+(* tfm_for_view with ray times of shape (numelements, prod(grid.shape)), no amplitudes: never raises,
+   the pixel at a multi-index reads column ravel(idx) of the two ray-time tables.
+   (Statement unchanged by the repair of tfm_for_view_nd; the two hypotheses on the widths are now
+   exactly what makes the call succeed, see tfm_for_view_raises_iff_wrong_width below.) *)
 Theorem tfm_for_view_any_shape : forall T D (N : Num T) (V : Data T D) sc ns dt t0 fill s rtx rrx ss,
   Forall (fun row => length row = shape_size s) (r_times rtx) ->
   Forall (fun row => length row = shape_size s) (r_times rrx) ->
@@ -404,6 +406,44 @@ Theorem tfm_for_view_any_shape : forall T D (N : Num T) (V : Data T D) sc ns dt 
     forall idx k, ravel s idx = Some k ->
       nd_get (length s) img idx = Some (view_pixel N V sc ns dt t0 fill (r_times rtx) (r_times rrx) ss k).
 Proof. intros T D N V. exact (tfm_for_view_nd_get N V). Qed.
+
+(* REPAIR of the model (run-time tie): tfm_for_view never compares the ray times with the grid before
+   the final res.reshape(grid.shape).  When a ray-time table has a number of columns different from
+   prod(grid.shape) the library raises — AssertionError of FocalLaw (tfm.py:214) when the two tables
+   differ, ValueError of the reshape (tfm.py:466) when they agree — e.g. grid shape (1,), tx times
+   [[4,5],[5,4]], rx times [[1,2],[3,1]].  The model used to drop the columns in excess and answer an
+   image; it now answers None.  New theorems: *)
+(* without amplitudes the call raises EXACTLY when some row of a ray-time table has a length
+   different from prod(grid.shape) *)
+Theorem tfm_for_view_raises_iff_wrong_width : forall T D (N : Num T) (V : Data T D) sc ns dt t0 fill s rtx rrx ss,
+  tfm_for_view_nd N V sc ns dt t0 fill s rtx rrx None ss = None <->
+  Exists (fun row => length row <> shape_size s) (r_times rtx) \/
+  Exists (fun row => length row <> shape_size s) (r_times rrx).
+Proof. intros T D N V. exact (tfm_for_view_nd_noamp_raises_iff N V). Qed.
+
+(* with amplitudes: a wrong width, or the core call raises (amplitude tables of another shape, an
+   interpolation the amplitude kernels do not have) *)
+Theorem tfm_for_view_raises_iff : forall T D (N : Num T) (V : Data T D) sc ns dt t0 fill s rtx rrx amps ss,
+  tfm_for_view_nd N V sc ns dt t0 fill s rtx rrx amps ss = None <->
+  Exists (fun row => length row <> shape_size s) (r_times rtx) \/
+  Exists (fun row => length row <> shape_size s) (r_times rrx) \/
+  tfm_for_view N V sc ns dt t0 fill (shape_size s) rtx rrx amps ss = None.
+Proof. intros T D N V. exact (tfm_for_view_nd_raises_iff N V). Qed.
+
+(* correctly sized ray times, with or without amplitudes: the call is the core call on the columns
+   followed by reshape(grid.shape), one value per column *)
+Theorem tfm_for_view_any_shape_amplitudes : forall T D (N : Num T) (V : Data T D) sc ns dt t0 fill s rtx rrx amps ss,
+  Forall (fun row => length row = shape_size s) (r_times rtx) ->
+  Forall (fun row => length row = shape_size s) (r_times rrx) ->
+  tfm_for_view_nd N V sc ns dt t0 fill s rtx rrx amps ss
+  = option_map (nd_reshape (dzero V) s) (tfm_for_view N V sc ns dt t0 fill (shape_size s) rtx rrx amps ss)
+  /\ forall res, tfm_for_view N V sc ns dt t0 fill (shape_size s) rtx rrx amps ss = Some res ->
+       length res = shape_size s.
+Proof.
+  intros T D N V sc ns dt t0 fill s rtx rrx amps ss Htx Hrx.
+  exact (conj (tfm_for_view_nd_eq N V sc ns dt t0 fill s rtx rrx amps ss Htx Hrx)
+              (fun res => tfm_for_view_length N V sc ns dt t0 fill (shape_size s) rtx rrx amps ss res Htx)).
+Qed.
 
 (* ---- a pixel does not depend on the pixels imaged with it ------------------------------- *)
 (* two calls of delay_and_sum on the same frame, weights and options: pixels whose rows of the
@@ -443,6 +483,17 @@ Theorem tfm_for_view_sublist : forall T D (N : Num T) (V : Data T D) sc ns dt t0
 Proof. intros T D N V. exact (tfm_for_view_take N V). Qed.
 
 (* ---- default_timetrace_weights on ARBITRARY frames -------------------------------------- *)
+(* REPAIR of the model (run-time tie): ut.default_timetrace_weights([], []) raises "ValueError:
+   Iteration of zero-sized operands is not enabled" (np.nditer over np.ones(0), ut.py:148-151); the
+   model used to answer Some [].  default_weights_z [] [] is now None:
+     default_weights_arbitrary_frames   statement unchanged (its hypothesis `= Some w` now excludes
+                                        the empty frame as well)
+     default_weights_length_check       OLD  None <-> length tx <> length rx
+                                        NEW  None <-> length tx <> length rx \/ (tx = [] /\ rx = [])
+     default_weights_defined_iff        NEW  a value exactly on non-empty lists of equal lengths
+     default_weights_empty_frame_raises NEW
+     default_weights_values_are_model   gains the hypothesis l <> []: on the empty frame the total
+                                        function of C15 answers [] where the library raises *)
 (* any tx / rx lists of integers (any values, repeated pairs, any order, any subset of the matrix):
    timetrace k gets 1 exactly when the pair (rx[k], tx[k]) occurs somewhere in the frame, else 2 *)
 Theorem default_weights_arbitrary_frames : forall tx rx w,
@@ -453,8 +504,16 @@ Theorem default_weights_arbitrary_frames : forall tx rx w,
     (~ In (b, a) (combine tx rx) -> nth_error w k = Some 2%Z).
 Proof. exact default_weights_z_spec. Qed.
 
-Theorem default_weights_length_check : forall tx rx, default_weights_z tx rx = None <-> length tx <> length rx.
+Theorem default_weights_length_check : forall tx rx,
+  default_weights_z tx rx = None <-> length tx <> length rx \/ (tx = [] /\ rx = []).
 Proof. exact default_weights_z_raises. Qed.
+
+Theorem default_weights_defined_iff : forall tx rx,
+  (exists w, default_weights_z tx rx = Some w) <-> length tx = length rx /\ tx <> [].
+Proof. exact default_weights_z_defined. Qed.
+
+Theorem default_weights_empty_frame_raises : default_weights_z [] [] = None.
+Proof. exact default_weights_z_empty. Qed.
 
 (* independent of the storage order: the weights travel with the timetraces *)
 Theorem default_weights_order_independent : forall tx rx tx' rx' w w',
@@ -465,6 +524,7 @@ Proof. exact default_weights_z_perm. Qed.
 
 (* on element indices (non-negative) it is the model of C15 that hmc_eq_fmc uses *)
 Theorem default_weights_values_are_model : forall l : list (nat * nat),
+  l <> [] ->
   default_weights_z (map (fun p => Z.of_nat (fst p)) l) (map (fun p => Z.of_nat (snd p)) l)
   = Some (map Z.of_nat (default_timetrace_weights l)).
 Proof. exact default_weights_z_nat. Qed.
@@ -642,7 +702,8 @@ Example glue_default_weights :
   default_weights_z [0; 0; 2; 1]%Z [0; 1; 1; 0]%Z = Some [1; 1; 2; 1]%Z
   /\ default_weights_z [0; 0; 0]%Z [1; 1; 0]%Z = Some [2; 2; 1]%Z
   /\ default_weights_z [5; -3; 7; 7]%Z [7; 5; 5; -3]%Z = Some [1; 2; 1; 2]%Z
-  /\ default_weights_z [0; 0; 0]%Z [1; 1]%Z = None.
+  /\ default_weights_z [0; 0; 0]%Z [1; 1]%Z = None
+  /\ default_weights_z [] [] = None /\ default_weights_z [] [1]%Z = None.
 Proof. vm_compute. repeat split; reflexivity. Qed.
 
 (* C- and Fortran-ordered ray times (2 elements x 2 grid points) *)
@@ -653,7 +714,14 @@ Example glue_memory_order :
   /\ tfm_for_view_mem NumQ (DataReal NumQ) Linear 12 1 (1 # 2) 0 tC rC None (frame_of ex_g (fmc 2)) = Some [77 # 2; 38]
   /\ tfm_for_view_mem NumQ (DataReal NumQ) Linear 12 1 (1 # 2) 0 (a_asfortran 0 tC) rC None (frame_of ex_g (fmc 2)) = Some [77 # 2; 38]
   /\ tfm_for_view_nd NumQ (DataReal NumQ) Linear 12 1 (1 # 2) 0 [2; 1]%nat (mkRays [[4; 5]; [5; 4]] []) (mkRays [[1; 2]; [3; 1]] []) None
-                     (frame_of ex_g (fmc 2)) = Some [[77 # 2]; [38]].
+                     (frame_of ex_g (fmc 2)) = Some [[77 # 2]; [38]]
+  (* fewer / more grid points than columns of the ray times, tables of different widths: the library raises *)
+  /\ tfm_for_view_nd NumQ (DataReal NumQ) Linear 12 1 (1 # 2) 0 [1]%nat (mkRays [[4; 5]; [5; 4]] []) (mkRays [[1; 2]; [3; 1]] []) None
+                     (frame_of ex_g (fmc 2)) = None
+  /\ tfm_for_view_nd NumQ (DataReal NumQ) Linear 12 1 (1 # 2) 0 [3]%nat (mkRays [[4; 5]; [5; 4]] []) (mkRays [[1; 2]; [3; 1]] []) None
+                     (frame_of ex_g (fmc 2)) = None
+  /\ tfm_for_view_nd NumQ (DataReal NumQ) Linear 12 1 (1 # 2) 0 [1]%nat (mkRays [[4]; [5]] []) (mkRays [[1; 2]; [3; 1]] []) None
+                     (frame_of ex_g (fmc 2)) = None.
 Proof. vm_compute. repeat split; reflexivity. Qed.
 
 Example glue_explicit_weights :
